@@ -359,6 +359,21 @@ func (vc *VC) runTop(sc splitCase) error {
 		return err
 	}
 	if rst == nil {
+		// vacuity guard: no return was reached although the function has one. Either an assumption
+		// (postassume, callassume, trusted postcondition) is contradictory or every path was cut.
+		hasRet := false
+		for _, b := range vc.fn.Blocks {
+			if len(b.Instrs) > 0 {
+				if _, ok := b.Instrs[len(b.Instrs)-1].(*ssa.Return); ok {
+					hasRet = true
+				}
+			}
+		}
+		if hasRet && len(f.returns) == 0 {
+			vc.obls = append(vc.obls, &Obligation{Name: f.oblName("cover", "some-return"), Kind: "cover-return", Func: funcKey(vc.fn),
+				Text: "some return of the function is reachable (the assumptions made on the way are consistent)",
+				Hyps: []*Term{vc.B.False()}, Goal: vc.B.False(), vc: vc, Cover: true, Pos: vc.c.Pos, NFacts: len(vc.facts)})
+		}
 		return nil
 	}
 	_ = vals
